@@ -34,7 +34,7 @@ for pid in sys.argv[1:]:
             os.makedirs(d, exist_ok=True)
             shutil.copy(patch, f'{d}/patch.diff'); shutil.copy(demo, f'{d}/demo.py')
             notes = open(f'{out}/notes.md').read() if os.path.exists(f'{out}/notes.md') else ''
-            json.dump({'property': pid, 'round': 3, 'origin': 'independent sub-agent given only the property text and a scratch worktree of the (repaired) tree',
+            json.dump({'property': pid, 'round': int(os.environ.get('SEED_ROUND', '3')), 'origin': 'independent sub-agent given only the property text and a scratch worktree of the (repaired) tree',
                        'notes_from_author': notes,
                        'confirmed_by': 'tools/confirm_seeds2.py: demo exits 0 on the clean tree, patch applies, the existing test suite passes with the patch (only the baseline-failing test_pyright fails), demo exits non-zero with the patch',
                        'demo_output_with_patch': o1[-800:], 'tests_tail': ot[-300:]}, open(f'{d}/meta.json', 'w'), indent=1)
